@@ -36,4 +36,4 @@ Example C12_checker_ex :
   /\ c12_ok (model_trans s (OTx (MCancel (AGood true 1) 0))) = true
   /\ t_class (model_trans (t_post t) c12_cancel) = KRej
   /\ c12_ok (model_trans (t_post t) c12_cancel) = true.
-Proof. repeat split; vm_compute; reflexivity. Qed.
+Proof. cbv zeta. repeat (match goal with |- _ /\ _ => split end); vm_compute; reflexivity. Qed.
